@@ -135,14 +135,14 @@ theorem mem_dedupKeep (x : String) : ∀ (l seen : List String), x ∈ dedupKeep
   | y :: ys, seen => by
     unfold dedupKeep
     by_cases hy : seen.contains y = true
-    · simp only [hy, if_true, mem_dedupKeep x ys seen, List.mem_cons]
+    · rw [if_pos hy, mem_dedupKeep x ys seen, List.mem_cons]
       have hy' : y ∈ seen := List.contains_iff_mem.mp hy
       constructor
       · rintro ⟨h1, h2⟩; exact ⟨Or.inr h1, h2⟩
       · rintro ⟨h1 | h1, h2⟩
         · subst h1; exact absurd hy' h2
         · exact ⟨h1, h2⟩
-    · simp only [hy, List.mem_cons, mem_dedupKeep x ys (y :: seen)]
+    · rw [if_neg hy, List.mem_cons, mem_dedupKeep x ys (y :: seen), List.mem_cons, List.mem_cons]
       have hy' : y ∉ seen := fun h => hy (List.contains_iff_mem.mpr h)
       constructor
       · rintro (h | ⟨h1, h2⟩)
@@ -152,7 +152,10 @@ theorem mem_dedupKeep (x : String) : ∀ (l seen : List String), x ∈ dedupKeep
         · exact Or.inl h1
         · by_cases e : x = y
           · exact Or.inl e
-          · exact Or.inr ⟨h1, by rintro (h | h); exact e h; exact h2 h⟩
+          · refine Or.inr ⟨h1, ?_⟩
+            rintro (h | h)
+            · exact e h
+            · exact h2 h
 
 theorem nodupB_iff (l : List String) : nodupB l = true ↔ l.Nodup := by
   induction l with
@@ -176,7 +179,7 @@ theorem dedupKeep_sublist : ∀ (l seen : List String), (dedupKeep seen l).Subli
     unfold dedupKeep
     split
     · exact (dedupKeep_sublist ys seen).cons y
-    · exact (dedupKeep_sublist ys (y :: seen)).cons₂ y
+    · exact (dedupKeep_sublist ys (y :: seen)).cons_cons y
 
 /-! ## what the combined read returns -/
 
@@ -403,7 +406,7 @@ inductive Skel where
   | union (ks : List Skel)
   | inter (ks : List Skel)
   | diff (b s : Skel)
-  deriving Repr, DecidableEq
+  deriving Repr
 
 mutual
 def skelR : Rewrite → Skel
@@ -610,6 +613,7 @@ theorem tie_resolve_this : Gen.Expand.thisReadFilter = ["Object:tk.GetObject()",
 /-- `resolveTupleToUserset`: tupleset lookup, read filter, validity filter, relation default, `seen`
 de-duplication, **no** sort -/
 theorem tie_resolve_ttu : Gen.Expand.ttuFilterFunc = "validation.FilterInvalidTuples(typesys)" ∧
+    Gen.Expand.ttuReadFilter = ["Object:tsKey.GetObject()", "Relation:tsKey.GetRelation()", "User:tsKey.GetUser()"] ∧
     Gen.Expand.ttuConds = ["err != nil", "errors.Is(err, typesystem.ErrObjectTypeUndefined)",
       "errors.Is(err, typesystem.ErrRelationUndefined)", "tsKey.GetRelation() == \"\"", "err != nil", "err != nil",
       "errors.Is(err, storage.ErrIteratorDone)", "tRelation == \"\"", "!seen[computedRelation]"] ∧
@@ -629,7 +633,7 @@ theorem tie_execute_steps : Gen.Expand.executeSteps =
 
 /-- `toObjectRelation` / `ToObjectRelationString` -/
 theorem tie_object_relation : Gen.Expand.toObjectRelationBody = "tupleUtils.ToObjectRelationString(tk.GetObject(), tk.GetRelation())" ∧
-    Gen.Expand.objectRelationFormat = "objectID + \"#\" + relation" := by decide
+    Gen.Expand.objectRelationFormat = "object + \"#\" + relation" := by decide
 
 /-! ## Non-vacuity -/
 
@@ -653,21 +657,30 @@ def exCtx : List Tuple :=
   [{ obj := "doc:1", rel := "viewer", user := "user:z", cond := "", ctx := [] },     -- duplicate of a stored key
    { obj := "doc:1", rel := "viewer", user := "user:a", cond := "", ctx := [] }]
 
-example : (execute exModel exStored exCtx "doc:1" "viewer").render =
+/-- the hypotheses of `expand_conforms` / `expand_shape` are satisfiable on a world with tuples -/
+example : (expandRw exModel exCtx exStored "doc:1" "viewer"
+    (.diff (.union [.this, .computed "editor", .inter [.this, .this]]) (.computed "editor"))).isSome = true :=
+  expandRw_total exModel exCtx exStored "doc:1" "viewer" _ (by simp [Rewrite.ttus])
+
+example : sortedSet ["user:z", "user:b", "user:z", "user:a"] = ["user:a", "user:b", "user:z"] := by decide
+example : dedupKeep [] ["f:2#v", "f:1#v", "f:2#v"] = ["f:2#v", "f:1#v"] := by decide
+example : strictAsc ["user:a", "user:b"] = true ∧ strictAsc ["user:b", "user:a"] = false ∧
+    strictAsc ["user:a", "user:a"] = false := by decide
+
+/-! concrete evaluations of the executable model (string splitting does not reduce in the kernel, so these
+are build-time evaluations, not kernel proofs; they show the model and the check are not degenerate) -/
+
+#guard (execute exModel exStored exCtx "doc:1" "viewer").render =
     "diff doc:1#viewer union doc:1#viewer 3 users doc:1#viewer 3 user:a user:b user:z computed doc:1#viewer doc:1#editor " ++
-    "ttu doc:1#viewer doc:1#parent 1 folder:p#viewer computed doc:1#viewer doc:1#editor" := by decide
+    "ttu doc:1#viewer doc:1#parent 1 folder:p#viewer computed doc:1#viewer doc:1#editor"
 
-example : ∃ t, execute exModel exStored exCtx "doc:1" "viewer" = .ok t := ⟨_, by decide⟩
-
-/-- the check is not trivially true: a tree with the users in the wrong order, a missing user, an invalid
-user, or a wrong node name is rejected -/
-example : conforms exModel (exCtx ++ exStored) "doc:1" "editor" .this (.users "doc:1#editor" []) = true ∧
-    conforms exModel (exCtx ++ exStored) "doc:1" "viewer" .this (.users "doc:1#viewer" ["user:a", "user:b", "user:z"]) = true ∧
-    conforms exModel (exCtx ++ exStored) "doc:1" "viewer" .this (.users "doc:1#viewer" ["user:b", "user:a", "user:z"]) = false ∧
-    conforms exModel (exCtx ++ exStored) "doc:1" "viewer" .this (.users "doc:1#viewer" ["user:b", "user:z"]) = false ∧
-    conforms exModel (exCtx ++ exStored) "doc:1" "viewer" .this (.users "doc:1#viewer" ["folder:x", "user:a", "user:b", "user:z"]) = false ∧
-    conforms exModel (exCtx ++ exStored) "doc:1" "viewer" .this (.users "doc:1#viewer" ["user:a", "user:b", "user:z", "user:z"]) = false ∧
-    conforms exModel (exCtx ++ exStored) "doc:1" "viewer" .this (.users "doc:1#editor" ["user:a", "user:b", "user:z"]) = false := by
-  decide
+-- the check rejects: wrong order, a missing user, an invalid user, a duplicate, a wrong node name
+#guard conforms exModel (exCtx ++ exStored) "doc:1" "editor" .this (.users "doc:1#editor" []) = true
+#guard conforms exModel (exCtx ++ exStored) "doc:1" "viewer" .this (.users "doc:1#viewer" ["user:a", "user:b", "user:z"]) = true
+#guard conforms exModel (exCtx ++ exStored) "doc:1" "viewer" .this (.users "doc:1#viewer" ["user:b", "user:a", "user:z"]) = false
+#guard conforms exModel (exCtx ++ exStored) "doc:1" "viewer" .this (.users "doc:1#viewer" ["user:b", "user:z"]) = false
+#guard conforms exModel (exCtx ++ exStored) "doc:1" "viewer" .this (.users "doc:1#viewer" ["folder:x", "user:a", "user:b", "user:z"]) = false
+#guard conforms exModel (exCtx ++ exStored) "doc:1" "viewer" .this (.users "doc:1#viewer" ["user:a", "user:b", "user:z", "user:z"]) = false
+#guard conforms exModel (exCtx ++ exStored) "doc:1" "viewer" .this (.users "doc:1#editor" ["user:a", "user:b", "user:z"]) = false
 
 end OpenFGAVerif.C30
